@@ -580,6 +580,6 @@ property C04: (*Dependency).UnmarshalControl, lemma cat_extend, (*input).Peek, (
 property C05: VersionRelation.String, Stage.String, parsePossibilityStage, parsePossibilityStageSet, lemma idx_least, lemma idx_is, lemma idx_none, lemma render2, lemma render3, Arch.String[rt], parseArchInto, ParseArch, (*Arch).UnmarshalControl
 
 // C19 rests on the selection proved for C06: per relation, the first alternative applicable to the architecture
-property C19: (*Dependency).GetPossibilities[deb], lemma cnt_mono, lemma cnt_lt, (*ArchSet).Matches[deb], (*Arch).Is[deb]
+property C19: parsePossibility, lemma cat_extend, (*Dependency).GetPossibilities[deb], lemma cnt_mono, lemma cnt_lt, (*ArchSet).Matches[deb], (*Arch).Is[deb]
 
 @*/
